@@ -405,6 +405,18 @@ package stdlibspec
 //@   ensures result == nil ==> old(fsHas[name]) && !fsHas[name]
 //@   ensures result != nil ==> fsHas[name] == old(fsHas[name])
 //@   ensures !old(fsHas[name]) ==> result != nil && errIs(result, os.ErrNotExist)
+// OpenFile is modelled for O_WRONLY|O_CREATE|O_EXCL (193 on linux) only: it creates a new
+// empty file or fails and changes nothing; with other flags nothing is known (the file may
+// be created or truncated).
+//@ extern (*os.Root).OpenFile(r, name, flag, perm)
+//@   assigns fsHas[name], fsData[name]
+//@   ensures flag == 193 && result1 == nil ==> result0 != nil && fileNameOf(result0) == name && !old(fsHas[name]) && fsHas[name] && fsData[name] == ""
+//@   ensures flag == 193 && result1 != nil ==> result0 == nil && fsHas[name] == old(fsHas[name]) && fsData[name] == old(fsData[name])
+// Rename is atomic: it either moves the whole file over the new name or changes nothing.
+//@ extern (*os.Root).Rename(r, oldname, newname)
+//@   assigns fsHas[oldname], fsHas[newname], fsData[newname]
+//@   ensures result == nil && oldname != newname ==> old(fsHas[oldname]) && !fsHas[oldname] && fsHas[newname] && fsData[newname] == old(fsData[oldname])
+//@   ensures result != nil ==> fsHas[oldname] == old(fsHas[oldname]) && fsHas[newname] == old(fsHas[newname]) && fsData[newname] == old(fsData[newname])
 //@ extern (*os.Root).MkdirAll
 //@   pure
 //@ extern (*os.Root).Chtimes
@@ -422,8 +434,6 @@ package stdlibspec
 //@ extern io.ReadAll(r)
 //@   pure
 //@   ensures result1 == nil && typeis(r, *os.File) ==> bytesOf(result0) == fsData[fileNameOf(as(r, *os.File))]
-//@ extern path/filepath.Dir
-//@   pure
 
 // ---------------------------------------------------------------------------
 // encoding/base64 (URL alphabet, no padding) and path/filepath. b64Text(s): s is made of
@@ -434,13 +444,31 @@ package stdlibspec
 //@ spec func b64Text(s string) bool
 //@ spec func pathLen(p string) int
 //@ spec func pathPart(p string, j int) string
-//@ axiom b64-alphabet: forall s string, i int :: b64Text(s) && 0 <= i && i < len(s) ==> s[i] != 126 && s[i] != 47
+//@ spec func pathBase(p string) string
+//@ spec func sepFree(s string) bool = forall i int :: 0 <= i && i < len(s) ==> s[i] != 47 # opaque
+//@ lemma sepFree-substring: forall s string, i int, j int :: sepFree(s) && 0 <= i && i <= j && j <= len(s) ==> sepFree(s[i:j])
+//@   reveal sepFree
+//@ lemma sepFree-concat: forall a string, b string :: sepFree(a) && sepFree(b) ==> sepFree(a + b)
+//@   reveal sepFree
+//@ lemma sepFree-markers: sepFree("~") && sepFree(".tmp-")
+//@   reveal sepFree
+//@ axiom b64-alphabet: forall s string, i int :: b64Text(s) && 0 <= i && i < len(s) ==> s[i] != 126 && s[i] != 47 && s[i] != 46
+//@ lemma sepFree-b64: forall s string :: b64Text(s) ==> sepFree(s)
+//@   reveal sepFree
 //@ axiom b64-one-component: forall s string :: b64Text(s) ==> pathLen(s) == 1 && pathPart(s, 0) == s
+//@ axiom path-base-is-last-part: forall p string :: pathLen(p) >= 1 ==> pathBase(p) == pathPart(p, pathLen(p)-1)
 //@ extern (*encoding/base64.Encoding).EncodeToString(enc, src)
 //@   pure
 //@   ensures b64Text(result)
 //@ extern path/filepath.Join(elem)
 //@   pure
 //@   requires forall j int :: 0 <= j && j < len(elem) ==> len(elem[j]) > 0
-//@   ensures pathLen(result) == len(elem)
-//@   ensures forall j int :: 0 <= j && j < len(elem) ==> pathPart(result, j) == elem[j]
+//@   ensures (forall j int :: 0 <= j && j < len(elem) ==> sepFree(elem[j])) ==> pathLen(result) == len(elem) && (forall j int :: 0 <= j && j < len(elem) ==> pathPart(result, j) == elem[j])
+//@   ensures len(elem) > 0 && sepFree(elem[len(elem)-1]) ==> pathBase(result) == elem[len(elem)-1]
+//@ extern path/filepath.Dir(path)
+//@   pure
+//@   ensures len(result) > 0
+// crypto/rand.Text: 26 characters of the base32 alphabet.
+//@ extern crypto/rand.Text
+//@   pure
+//@   ensures sepFree(result)
